@@ -179,4 +179,3 @@ package app
 //@   props C14
 //@   requires ctx != nil
 //@   top-ensures ctx.Request.bodyStream != nil ==> r == ctx.Request.bodyStream
-
